@@ -60,6 +60,7 @@ type Manager struct {
 	Ctrls       []*Ctrl
 	byName      map[string]*Ctrl
 	onTaskStart []func(*Task)
+	OnDeliver   []func(WatchEvent)
 	routeCtx    context.Context
 }
 
@@ -224,6 +225,9 @@ func errStr(t *Task) string {
 func (m *Manager) Deliver(gvk schema.GroupVersionKind) {
 	ev, old := m.sim.cache.Deliver(gvk)
 	m.sim.Stat("deliver")
+	for _, f := range m.OnDeliver {
+		f(ev)
+	}
 	m.Route(ev, old)
 }
 
